@@ -7,7 +7,7 @@ dst = "/verif/seeded/%s" % name
 os.makedirs(dst, exist_ok=True)
 shutil.copy(out + "/patch.diff", dst + "/patch.diff")
 for f in os.listdir(out):
-    if re.match(r"demo.*\.(c|h|sh|py)$", f) or f == "NOTES.md":
+    if re.match(r"demo.*\.(c|h|sh|py)$", f) or f in ("NOTES.md", "NOTES.txt"):
         s = open(os.path.join(out, f), errors="replace").read().replace(out, ".").replace(out[:-4], "/tmp/ksi-seed")
         open(os.path.join(dst, f), "w").write(s)
 w = open(out + "/demo.with.txt", errors="replace").read().strip().splitlines()
